@@ -13,6 +13,7 @@ import TLX.Lemmas.SessionCarriers
 import TLX.Props.C01Capstone2
 import TLX.Props.C01File
 import TLX.Lemmas.ExportProps
+import TLX.Lemmas.C01Rfc
 set_option autoImplicit false
 set_option linter.unusedSimpArgs false
 namespace TLX.Lemmas.ExportSeg
@@ -132,5 +133,238 @@ theorem exported_of_keys (H : Crypto.Prims) (P : Cipher.Prims) (kl : List Keylog
   rw [r2, dirBytes_traffic, dirBytes_traffic, dirBytes_traffic, dirBytes_traffic]
   unfold exportedRecs at hx
   rw [hx]
+
+/-! ### C09: `generate_keys` reads the key log through `Keylog.installed12 .firstMaster` / `Keylog.installed13` only -/
+
+section C09
+open TLX.Keylog TLX.Lemmas.KeySchedule TLX.Lemmas.C01Rfc
+
+/-- the key-log lines `generate_keys` looks at -/
+def foundOf (kl : List Key) (v : Option Session.Ver) (cr : Bytes) : List Key :=
+  if v = some .tls13 then findSessionSecrets kl (Pipeline.natsOfBytes cr)
+  else (findSessionSecrets kl (Pipeline.natsOfBytes cr)).filter fun k => k.label == s_CLIENT_RANDOM || k.label == s_RSA
+
+/-- `generate_keys` after the suite has resolved and the lines have been looked up (verbatim the tail of `Pipeline.genKeys`) -/
+def inner (H : Crypto.Prims) (P : Cipher.Prims) (v : Option Session.Ver) (a : Pipeline.SuiteArgs) (cr sr : Bytes)
+    (exts : Session.Exts) (comp : UInt8) (found : List Key) : Session.Gen RecordLayer.Dec :=
+  match found with
+  | [] => .noSecrets
+  | _ =>
+    match v with
+    | none => .raised
+    | some v =>
+      if comp ≠ 0 then .raised else
+      match Pipeline.secretsOf (v = .tls13) found with
+      | none => .raised
+      | some secrets =>
+        match KeySchedule.generateKeys H (Pipeline.ksVersion v) a.ks secrets cr sr with
+        | .error _ => .raised
+        | .ok none => .noSecrets
+        | .ok (some inst) =>
+          let macLen := (KeySchedule.macSuite H a.ks.mac).outLen
+          let etm := (Session.extGet exts [0x00, 0x16]).isSome
+          match RecordLayer.Dec.init P a.bulk (Pipeline.rlVersion v) macLen a.tagLen (Pipeline.blockBits a.bulk) etm
+                  (Pipeline.keysOfInstalled inst) with
+          | .error _ => .raised
+          | .ok d => .installed d
+
+theorem genKeys_inner (H : Crypto.Prims) (P : Cipher.Prims) (kl : List Key) (v : Option Session.Ver) (suite cr sr : Bytes)
+    (exts : Session.Exts) (comp : UInt8) :
+    Pipeline.genKeys H P kl v suite cr sr exts comp =
+      match (if suite.length = 2 then CipherSuite.resolve (Bytes.beNat suite) else none) with
+      | none => .noSuite
+      | some ps =>
+        match Pipeline.suiteArgs ps with
+        | none => .raised
+        | some a => inner H P v a cr sr exts comp (foundOf kl v cr) := rfl
+
+theorem generateKeys_head (H : Crypto.Prims) (v : KeySchedule.Version) (hv : v ≠ .tls13) (s : KeySchedule.Suite)
+    (x : KeySchedule.Secret) (t t' : List KeySchedule.Secret) (cr sr : Bytes) :
+    KeySchedule.generateKeys H v s (x :: t) cr sr = KeySchedule.generateKeys H v s (x :: t') cr sr := by
+  cases v <;> first | rfl | exact absurd rfl hv
+
+theorem devTls13Keys_congr (h : Crypto.HashSuite) (ss1 ss2 : List KeySchedule.Secret) (n : Nat)
+    (e1 : lastOf .clientHandshake ss1 = lastOf .clientHandshake ss2)
+    (e2 : lastOf .serverHandshake ss1 = lastOf .serverHandshake ss2)
+    (e3 : lastOf .clientTraffic0 ss1 = lastOf .clientTraffic0 ss2)
+    (e4 : lastOf .serverTraffic0 ss1 = lastOf .serverTraffic0 ss2) :
+    KeySchedule.devTls13Keys h ss1 n = KeySchedule.devTls13Keys h ss2 n := by
+  unfold KeySchedule.devTls13Keys
+  cases KeySchedule.toBytes2 n with
+  | error e => rfl
+  | ok kl =>
+    simp only [bind, Except.bind]
+    have h0 : ∀ ki ii : Bytes, ({} : KeySchedule.Tls13Acc) =
+        acc13 (fun s => h.hkdfExpand s ki n) (fun s => h.hkdfExpand s ii 12) none none none none := fun _ _ => rfl
+    rw [h0, tls13_fold, tls13_fold]
+    unfold lastOf at e1 e2 e3 e4
+    rw [e1, e2, e3, e4]
+
+theorem generateKeys13_congr (H : Crypto.Prims) (s : KeySchedule.Suite) (ss1 ss2 : List KeySchedule.Secret) (cr sr : Bytes)
+    (hn1 : ss1 ≠ []) (hn2 : ss2 ≠ [])
+    (e1 : lastOf .clientHandshake ss1 = lastOf .clientHandshake ss2)
+    (e2 : lastOf .serverHandshake ss1 = lastOf .serverHandshake ss2)
+    (e3 : lastOf .clientTraffic0 ss1 = lastOf .clientTraffic0 ss2)
+    (e4 : lastOf .serverTraffic0 ss1 = lastOf .serverTraffic0 ss2) :
+    KeySchedule.generateKeys H .tls13 s ss1 cr sr = KeySchedule.generateKeys H .tls13 s ss2 cr sr := by
+  cases ss1 with
+  | nil => exact absurd rfl hn1
+  | cons x1 t1 =>
+    cases ss2 with
+    | nil => exact absurd rfl hn2
+    | cons x2 t2 =>
+      simp only [KeySchedule.generateKeys]
+      rw [devTls13Keys_congr _ _ _ _ e1 e2 e3 e4]
+
+/-! the TLS 1.3 loop of the key schedule (`lastOf` over `secretsOf true`) and of the key-log model (`scan labels13`) -/
+
+theorem mapM_sec13_cons (k : Key) (ks : List Key) :
+    (k :: ks).mapM sec13 = (sec13 k).bind fun b => (ks.mapM sec13).map fun bs => b :: bs := by
+  rw [List.mapM_cons]
+  cases sec13 k with
+  | none => rfl
+  | some b => cases ks.mapM sec13 <;> rfl
+
+theorem scan_none_iff (ks : List Key) (st : Str → Option (List Nat)) :
+    scan labels13 ks st = none ↔ ks.mapM sec13 = none := by
+  induction ks generalizing st with
+  | nil => simp [scan]
+  | cons k ks ih =>
+    rw [mapM_sec13_cons]
+    unfold scan sec13
+    by_cases hc : labels13.contains k.label = true
+    · simp only [hc, if_true]
+      cases fromHex k.value with
+      | none => simp
+      | some b => simp only [Option.map_some, Option.bind_some, Option.map_eq_none_iff]; exact ih _
+    · simp only [hc, Bool.false_eq_true, if_false, Option.bind_some, Option.map_eq_none_iff]; exact ih _
+
+theorem labelOf_ne_other (L : Str) (hL : L ∈ labels13) : Pipeline.labelOf L ≠ .other := by
+  simp only [labels13, List.mem_cons, List.mem_nil_iff, or_false] at hL
+  rcases hL with rfl | rfl | rfl | rfl <;> decide
+
+/-- per label of `labels13`: the last secret the key schedule sees = the secret the key-log scan ends with -/
+theorem scan_lastOf (ks : List Key) (st st' : Str → Option (List Nat)) (ss : List KeySchedule.Secret)
+    (hm : ks.mapM sec13 = some ss) (hs : scan labels13 ks st = some st') (L : Str) (hL : L ∈ labels13)
+    (acc : Option Bytes) (hacc : acc = (st L).map Pipeline.bytesOfNats) :
+    ss.foldl (pick (Pipeline.labelOf L)) acc = (st' L).map Pipeline.bytesOfNats := by
+  induction ks generalizing st ss acc with
+  | nil =>
+    simp only [List.mapM_nil, pure, Option.some.injEq] at hm
+    simp only [scan, Option.some.injEq] at hs
+    subst hm; subst hs
+    exact hacc
+  | cons k ks ih =>
+    rw [mapM_sec13_cons] at hm
+    unfold scan at hs
+    have hk : sec13 k = if labels13.contains k.label then
+        (fromHex k.value).map fun v => (Pipeline.labelOf k.label, Pipeline.bytesOfNats v)
+      else some (.other, []) := rfl
+    rw [hk] at hm
+    by_cases hc : labels13.contains k.label = true
+    · simp only [hc, if_true] at hm hs
+      cases hx : fromHex k.value with
+      | none => rw [hx] at hs; cases hs
+      | some b =>
+        rw [hx] at hm hs
+        simp only [Option.map_some, Option.bind_some] at hm hs
+        cases hks : ks.mapM sec13 with
+        | none => rw [hks] at hm; cases hm
+        | some bs =>
+          rw [hks] at hm
+          simp only [Option.map_some, Option.some.injEq] at hm
+          subst hm
+          simp only [List.foldl_cons]
+          refine ih _ bs hks hs _ ?_
+          by_cases e : L = k.label
+          · subst e; simp [pick]
+          · have : Pipeline.labelOf k.label ≠ Pipeline.labelOf L := by
+              intro h
+              exact e (labelOf_inj13 k.label (by simpa using hc) L (by simpa using hL) h.symm)
+            simp [pick, this, e, hacc]
+    · simp only [hc, Bool.false_eq_true, if_false, Option.bind_some] at hm hs
+      cases hks : ks.mapM sec13 with
+      | none => rw [hks] at hm; cases hm
+      | some bs =>
+        rw [hks] at hm
+        simp only [Option.map_some, Option.some.injEq] at hm
+        subst hm
+        simp only [List.foldl_cons]
+        refine ih _ bs hks hs _ ?_
+        have := labelOf_ne_other L hL
+        simp [pick, Ne.symm this, hacc]
+
+theorem mapM_ne_nil (k : Key) (ks : List Key) (ss : List KeySchedule.Secret) (h : (k :: ks).mapM sec13 = some ss) :
+    ss ≠ [] := by
+  rw [mapM_sec13_cons] at h
+  cases hk : sec13 k with
+  | none => rw [hk] at h; cases h
+  | some b =>
+    rw [hk] at h
+    cases hks : ks.mapM sec13 with
+    | none => rw [hks] at h; cases h
+    | some bs => rw [hks] at h; simp at h; subst h; simp
+
+/-- **TLS 1.3**: the tail of `generate_keys` depends on the lines found only through `installed13` -/
+theorem inner_congr13 (H : Crypto.Prims) (P : Cipher.Prims) (a : Pipeline.SuiteArgs) (cr sr : Bytes)
+    (exts : Session.Exts) (comp : UInt8) (kl1 kl2 : List Key)
+    (h : installed13 kl1 (Pipeline.natsOfBytes cr) = installed13 kl2 (Pipeline.natsOfBytes cr)) :
+    inner H P (some .tls13) a cr sr exts comp (foundOf kl1 (some .tls13) cr) =
+      inner H P (some .tls13) a cr sr exts comp (foundOf kl2 (some .tls13) cr) := by
+  unfold installed13 at h
+  simp only [foundOf, if_true]
+  generalize findSessionSecrets kl1 (Pipeline.natsOfBytes cr) = f1 at *
+  generalize findSessionSecrets kl2 (Pipeline.natsOfBytes cr) = f2 at *
+  have hbad : ∀ (k : Key) (r : List Key), (match scan labels13 (k :: r) fun _ => none with
+      | none => Res.valueError
+      | some st => Res.ok (labels13.map st)) ≠ (Res.missing : Res (List (Option (List Nat)))) := by
+    intro k r; cases scan labels13 (k :: r) fun _ => none <;> (intro hh; cases hh)
+  cases f1 with
+  | nil =>
+    cases f2 with
+    | nil => rfl
+    | cons k r => exact absurd h.symm (hbad k r)
+  | cons k1 r1 =>
+    cases f2 with
+    | nil => exact absurd h (hbad k1 r1)
+    | cons k2 r2 =>
+      simp only at h
+      simp only [inner, decide_true, secretsOf_true]
+      by_cases hcomp : comp ≠ 0
+      · rw [if_pos hcomp, if_pos hcomp]
+      · rw [if_neg hcomp, if_neg hcomp]
+        cases hs1 : scan labels13 (k1 :: r1) fun _ => none with
+        | none =>
+          cases hs2 : scan labels13 (k2 :: r2) fun _ => none with
+          | none =>
+            rw [(scan_none_iff _ _).mp hs1, (scan_none_iff _ _).mp hs2]
+          | some st2 => rw [hs1, hs2] at h; cases h
+        | some st1 =>
+          cases hs2 : scan labels13 (k2 :: r2) fun _ => none with
+          | none => rw [hs1, hs2] at h; cases h
+          | some st2 =>
+            rw [hs1, hs2] at h
+            simp only [Res.ok.injEq, labels13, List.map_cons, List.map_nil, List.cons.injEq, and_true] at h
+            obtain ⟨q1, q2, q3, q4⟩ := h
+            cases hm1 : (k1 :: r1).mapM sec13 with
+            | none => exact absurd ((scan_none_iff _ _).mpr hm1) (by rw [hs1]; simp)
+            | some ss1 =>
+              cases hm2 : (k2 :: r2).mapM sec13 with
+              | none => exact absurd ((scan_none_iff _ _).mpr hm2) (by rw [hs2]; simp)
+              | some ss2 =>
+                simp only
+                have key : ∀ L, L ∈ labels13 → st1 L = st2 L →
+                    lastOf (Pipeline.labelOf L) ss1 = lastOf (Pipeline.labelOf L) ss2 := by
+                  intro L hL e
+                  unfold lastOf
+                  rw [scan_lastOf _ _ _ _ hm1 hs1 L hL none rfl, scan_lastOf _ _ _ _ hm2 hs2 L hL none rfl, e]
+                have g := generateKeys13_congr H a.ks ss1 ss2 cr sr (mapM_ne_nil _ _ _ hm1) (mapM_ne_nil _ _ _ hm2)
+                  (key s_CHTS (by simp [labels13]) q1) (key s_SHTS (by simp [labels13]) q2)
+                  (key s_CTS0 (by simp [labels13]) q3) (key s_STS0 (by simp [labels13]) q4)
+                show (match KeySchedule.generateKeys H .tls13 a.ks ss1 cr sr with | .error _ => _ | .ok none => _ | .ok (some inst) => _) = _
+                rw [g]
+                rfl
+
+end C09
 
 end TLX.Lemmas.ExportSeg
